@@ -172,7 +172,8 @@ class GoExec:
         self.obls.append(Obligation(n, self.relevant_axioms(body + [goal]) + body, goal, kind, func=fname, src=src, meta=meta))
 
     def base_hyps(self):
-        return list(self.axioms) + (seq_axioms() if self.use_seq else [])
+        from .golib import ident_axioms
+        return list(self.axioms) + (seq_axioms() if self.use_seq else []) + (ident_axioms() if getattr(self, 'use_ident', False) else [])
 
     def relevant_axioms(self, terms):
         """global axioms are included only when they share an uninterpreted symbol with the obligation (closure)"""
@@ -447,11 +448,12 @@ class GoExec:
             return z3.And([s.len == len(l.lit)] + [z3.Select(s.arr, s.off + i) == c for i, c in enumerate(l.lit)])
         return z3.And(a.len == b.len, self.str_ident(a.arr, a.off, a.len) == self.str_ident(b.arr, b.off, b.len))
 
+    strcat_arr = z3.Function('strcat_arr', ArrII, I, I, ArrII, I, I, ArrII)
     def str_concat(self, st, a, b):
         if a.lit is not None and b.lit is not None:
             return strlit(a.lit + b.lit)
         self.need_lit(st, a); self.need_lit(st, b)
-        arr = fresh('cat.arr', ArrII)
+        arr = self.strcat_arr(a.arr, a.off, a.len, b.arr, b.off, b.len)      # canonical: equal operands give the same array term
         n = a.len + b.len
         k = fresh('k!cat')
         st.assume(z3.ForAll([k], z3.Select(arr, k) == z3.If(z3.And(0 <= k, k < a.len), z3.Select(a.arr, a.off + k),
